@@ -216,6 +216,9 @@ func genC18(c *Ctx) error {
 						v.Flaw = []string{"unknown_field", "wrong_type", "not_json"}[rng.Intn(3)]
 					}
 				}
+				if rng.Intn(10) == 0 {
+					v.Flaw = []string{"unknown_field", "wrong_type", "not_json"}[rng.Intn(3)]
+				}
 				// the chaincode-specific section: validated by the contract that declares one, carried along by the others
 				if isExt {
 					v.Ext = []string{"ok", "ok", "ok", "ok", "ok", "ok", "", "empty_addr"}[rng.Intn(8)]
